@@ -294,6 +294,11 @@ pub fn write_choice(choice: &Choice) -> serde_json::Value {
 
     jobj.insert("tags".to_owned(), write_choice_tags(choice));
 
+    // A pending fallback choice must stay hidden from the player after a load.
+    if choice.is_invisible_default {
+        jobj.insert("isInvisibleDefault".to_owned(), json!(true));
+    }
+
     serde_json::Value::Object(jobj)
 }
 
